@@ -52,6 +52,35 @@ def _pair_forms():
     return out
 
 
+def seq_programs():
+    """two import statements that bind the SAME name, combined with control flow (the first one may
+    not run: symbolic FLAG), a rebinding in between, repetition in a loop and in a function called
+    twice: the binding of the second statement must not depend on the first having run"""
+    same = []
+    for a in ITEMS:
+        for b in ITEMS:
+            if a != b and bound_names("import " + a) == bound_names("import " + b):
+                same.append((a, b))
+    for a, b in same:
+        n = bound_names("import " + a)[0]
+        obs = "log(%r, val(%s), sorted(k for k in vars(%s) if k in %r))" % (n, n, n, _ATTRS)
+        shapes = {
+            "if": ["if FLAG:", "    import %s" % a, "import %s" % b, obs],
+            "ifelse": ["if FLAG:", "    import %s" % a, "else:", "    import %s" % b, obs],
+            "rebind_import": ["import %s" % a, "from top import tv as %s" % n, "import %s" % b, obs],
+            "rebind_assign": ["import %s" % a, "%s = 5" % n, "import %s" % b, obs],
+            "loop": ["for i in range(2):", "    import %s" % a, "    import %s" % b, "    " + obs],
+            "loop_if": ["for i in range(2):", "    if FLAG == (i == 0):", "        import %s" % a, "    else:", "        import %s" % b, "    " + obs],
+        }
+        for sn, lines in shapes.items():
+            yield "C14:seq:%s:%s|%s:module" % (sn, a, b), "\n".join(lines) + "\nlog('end')\n"
+            body = lines + ["return 1"]
+            yield "C14:seq:%s:%s|%s:function" % (sn, a, b), "def f():\n" + "\n".join("    " + l for l in body) + "\nlog(f())\nlog('unbound', %r in globals())\n" % n
+        # a function called twice that takes a different branch each time
+        f2 = ["def f(flag):", "    if flag:", "        import %s" % a, "    else:", "        import %s" % b, "    return val(%s)" % n, "log(f(FLAG))", "log(f(not FLAG))"]
+        yield "C14:seq:func2:%s|%s:module" % (a, b), "\n".join(f2) + "\nlog('end')\n"
+
+
 def programs(pairs=True):
     forms = dict(FORMS)
     if pairs:
